@@ -75,6 +75,102 @@ Proof.
   intros [f0 ts1]. apply expr_loop_class. apply parse_factor_class. exact IH.
 Qed.
 
+(* ---------- the parser never runs out of fuel ---------- *)
+Local Close Scope Q_scope.
+Local Open Scope nat_scope.
+Definition prog (r : ures (tree * list str)) (ts : list str) : Prop :=
+  match r with
+  | UOk (_, rest) => length rest < length ts
+  | URaise Hang => False
+  | URaise _ => True
+  end.
+Definition prog_le (r : ures (tree * list str)) (ts : list str) : Prop :=
+  match r with
+  | UOk (_, rest) => length rest <= length ts
+  | URaise Hang => False
+  | URaise _ => True
+  end.
+
+Lemma parse_number_prog ts : prog (parse_number ts) ts.
+Proof.
+  unfold parse_number. destruct ts as [|t r]; [exact I|]. cbv beta iota.
+  destruct (tok_is (Some t) 40).
+  - destruct r as [|n r2]; [exact I|]. destruct r2 as [|cl rest]; [exact I|]. cbv beta iota.
+    destruct (tok_is (Some cl) 41); [|exact I]. destruct (isnumber n); simpl; [destruct (has_dot n); simpl; lia|exact I].
+  - destruct (isnumber t); simpl; [destruct (has_dot t); simpl; lia|exact I].
+Qed.
+
+Lemma parse_base_prog pe ts : (forall r, length r < length ts -> prog (pe r) r) ->
+  prog (parse_base extra_alpha pe ts) ts.
+Proof.
+  intros Hpe. destruct ts as [|t r]; [exact I|]. unfold parse_base.
+  destruct (tok_is (Some t) 40).
+  - specialize (Hpe r (Nat.lt_succ_diag_r _)). destruct (pe r) as [[e l]|[]]; cbn [ubind snd fst prog] in *; auto.
+    destruct l as [|cl rest]; [exact I|]. destruct (tok_is (Some cl) 41); cbn [prog length] in *; [lia|exact I].
+  - destruct (isnumber t); [apply parse_number_prog|].
+    destruct (tok_isalpha extra_alpha t); simpl; [lia|exact I].
+Qed.
+
+Lemma parse_factor_prog pe ts : (forall r, length r < length ts -> prog (pe r) r) ->
+  prog (parse_factor extra_alpha pe ts) ts.
+Proof.
+  intros Hpe. unfold parse_factor. pose proof (parse_base_prog pe ts Hpe) as Hb.
+  destruct (parse_base extra_alpha pe ts) as [[b l]|[]]; cbn [ubind snd fst prog] in *; auto.
+  destruct l as [|t r]; [cbn [prog]; exact Hb|].
+  destruct (tok_is (Some t) 94); [|cbn [prog]; exact Hb].
+  pose proof (parse_number_prog r) as Hn. destruct (parse_number r) as [[nr l2]|[]]; cbn [ubind snd fst prog length] in *; auto. lia.
+Qed.
+
+Lemma expr_loop_prog pf : forall m res ts,
+  (forall r, length r <= length ts -> prog (pf r) r) -> length ts < m ->
+  prog_le (expr_loop pf m res ts) ts.
+Proof.
+  induction m as [|m IH]; intros res ts Hpf Hm; [lia|].
+  cbn [expr_loop]. destruct ts as [|t r]; [simpl; lia|].
+  assert (Hr : forall x, length x <= length r -> prog (pf x) x) by (intros x Hx; apply Hpf; simpl; lia).
+  assert (Step : forall f1 : tree * list str, length (snd f1) < length (t :: r) -> forall res', prog_le (expr_loop pf m res' (snd f1)) (t :: r)).
+  { intros f1 Hl res'. assert (G := IH res' (snd f1)).
+    assert (G' : prog_le (expr_loop pf m res' (snd f1)) (snd f1)).
+    { apply G; [intros x Hx; apply Hpf; lia|simpl in *; lia]. }
+    destruct (expr_loop pf m res' (snd f1)) as [[t' rest]|[]]; simpl in *; auto; lia. }
+  destruct (tok_is (Some t) 42).
+  { pose proof (Hr r (le_n _)) as H1. destruct (pf r) as [f1|[]]; cbn [ubind prog prog_le] in *; auto. apply Step. destruct f1; cbn [snd prog length] in *; lia. }
+  destruct (tok_is (Some t) 47).
+  { pose proof (Hr r (le_n _)) as H1. destruct (pf r) as [f1|[]]; cbn [ubind prog prog_le] in *; auto. apply Step. destruct f1; cbn [snd prog length] in *; lia. }
+  pose proof (Hpf (t :: r) (le_n _)) as H1.
+  destruct (pf (t :: r)) as [f1|e].
+  - apply Step. destruct f1; simpl in *; lia.
+  - destruct e; simpl in *; auto.
+Qed.
+
+Lemma parse_expr_prog n : forall ts, length ts < n -> prog (parse_expr extra_alpha n ts) ts.
+Proof.
+  induction n as [|n IH]; intros ts Hn; [lia|].
+  cbn [parse_expr].
+  assert (Hpf : forall r, length r <= length ts -> prog (parse_factor extra_alpha (parse_expr extra_alpha n) r) r).
+  { intros r Hr. apply parse_factor_prog. intros x Hx. apply IH. lia. }
+  pose proof (Hpf ts (le_n _)) as H0.
+  destruct (parse_factor extra_alpha (parse_expr extra_alpha n) ts) as [[f0 ts1]|[]]; cbn [ubind snd fst prog] in *; auto.
+  assert (G : prog_le (expr_loop (parse_factor extra_alpha (parse_expr extra_alpha n)) n f0 ts1) ts1).
+  { apply expr_loop_prog; [intros r Hr; apply Hpf; lia|lia]. }
+  destruct (expr_loop _ n f0 ts1) as [[t' rest]|[]]; simpl in *; auto. lia.
+Qed.
+
+(* parsing always ends: a tree or the units parse error, never out of fuel *)
+Theorem parse_total text :
+  match parse extra_space extra_alpha text with
+  | UOk _ | URaise UnitsParse => True
+  | URaise _ => False
+  end.
+Proof.
+  unfold parse.
+  set (ts := tokenize extra_space text None []).
+  pose proof (parse_expr_class (S (S (length ts))) ts) as Hc.
+  pose proof (parse_expr_prog (S (S (length ts))) ts (Nat.lt_lt_succ_r _ _ (Nat.lt_succ_diag_r _))) as Hp.
+  destruct (parse_expr extra_alpha (S (S (length ts))) ts) as [[t [|x r]]|e]; simpl in *; auto.
+  destruct e; simpl in *; auto.
+Qed.
+
 Theorem parse_classified text :
   parse_class (parse extra_space extra_alpha text).
 Proof.
